@@ -177,6 +177,21 @@ func c11Run(c core.Case, env *core.Env) core.Result {
 			if pf, err := schnorr.NewZKVProof(sess, V, R, s, x2, rand.Reader); err == nil {
 				rejected("schnorrV: wrong l", func() bool { return pf.Verify(sess, V, R) })
 			}
+			// the same for Schnorr-V: claim 2V with the witness of V, then Alpha' = T*R + U*G - 2*(c*V), c*V = T*R + U*G - Alpha
+			if V2, err := V.Add(V); err == nil {
+				if pf, err := schnorr.NewZKVProof(sess, V2, R, s, l, rand.Reader); err == nil && new(big.Int).Mod(pf.T, q).Sign() != 0 && new(big.Int).Mod(pf.U, q).Sign() != 0 {
+					if lhs, err := R.ScalarMult(pf.T).Add(crypto.ScalarBaseMult(ec, pf.U)); err == nil {
+						if E, err := lhs.Add(negPoint(ec, pf.Alpha)); err == nil {
+							if E2, err := E.Add(E); err == nil {
+								if A2, err := lhs.Add(negPoint(ec, E2)); err == nil {
+									forged := &schnorr.ZKVProof{Alpha: A2, T: pf.T, U: pf.U}
+									rejected("schnorrV: statement 2V, first move recomputed from the responses", func() bool { return forged.Verify(sess, V2, R) })
+								}
+							}
+						}
+					}
+				}
+			}
 			if pf, err := schnorr.NewZKVProof(sess, V, R, s, l, rand.Reader); err == nil {
 				control("schnorrV", func() bool { return pf.Verify(sess, V, R) })
 				rejected("schnorrV: proof shown for V+G", func() bool {
